@@ -6,7 +6,7 @@ git -C /repo diff --quiet || { echo "/repo is dirty"; exit 2; }
 PATCH=/verif/seeded/$NAME/patch.diff
 [ -f /verif/seeded/$NAME/patch.rebased.diff ] && PATCH=/verif/seeded/$NAME/patch.rebased.diff
 git -C /repo apply $PATCH || { echo "PATCH DOES NOT APPLY: $NAME"; exit 2; }
-trap 'git -C /repo checkout -- .' EXIT
+trap 'git -C /repo checkout -- . ; git -C /repo clean -fdq src' EXIT
 RES=""
 for P in "$@"; do
   OUT=$(./check $P --tier quick 2>&1); RC=$?
